@@ -156,14 +156,20 @@ def _run_env(job, RR):
     msgs = []
     try:
         prefix = devs.get("location", "work")
+        via_link = prefix == "SYMLINK"
+        if via_link:      # the tree lives in 'real place/work' and is reached through the link 'via-link' -> 'real place'
+            prefix = "real place/work"
         spec = {os.path.join(prefix, k) if prefix != "work" else k: v for k, v in layout().items()}
         box.build(spec, base="work" if prefix == "work" else "")
         base = box.path(prefix) if prefix != "work" else box.path("work")
+        if via_link:
+            os.symlink("real place", box.path("via-link"))
+            base = box.path("via-link", "work")
         target = os.path.join(base, INPUTS[x])
         isdir = os.path.isdir(target)
         cwd = {"work": base, "inside": target if isdir else os.path.dirname(target), "root": "/"}[devs.get("cwd", "work")]
         sp = devs.get("spelling", "rel")
-        if sp == "abs" or cwd == "/":
+        if sp == "abs" or cwd == "/" or via_link:      # (through the link: given by its absolute path, the cwd would resolve it)
             arg = target
         elif sp == "dot" and isdir:
             cwd, arg = target, "."
@@ -266,6 +272,10 @@ def deviations(x):
     devs = [("cwd", "inside"), ("cwd", "root"), ("location", "moved/else where/deeper/work"),
             # directory names above the tree that tools like to skip
             ("location", ".hidden ws/build/_deps/CMakeFiles/.git/node_modules/tmp/docs/work"),
+            # characters that are special to glob/fnmatch/regular expressions in the names above the tree
+            ("location", "archive [2024]/a*b?/{x,y}/(z)+/work"),
+            # a symbolic link among the directories above the tree
+            ("location", "SYMLINK"),
             ("spelling", "abs"), ("spelling", "dotslash"), ("spelling", "updown"), ("listing", "reversed")]
     if x in ("D", "D2"):
         devs += [("spelling", "slash"), ("spelling", "dot")]
